@@ -18,6 +18,7 @@ def hw_pool():
     add('ld_va', lambda: Raw('load', V('va'))); add('st_vb', lambda: Raw('store', V('vb'))); add('ld_0', lambda: Raw('load', C(0))); add('ld_X', lambda: Raw('load', V('X')))
     add('st_Y', lambda: Raw('store', V('Y'))); add('ld_ax', lambda: Raw('load', Index('arr', V('X')))); add('st_ax', lambda: Raw('store', Index('arr', V('X'))))
     for k in (2, 3, 5, 7, 9): add('cs%d' % k, (lambda k=k: Raw('csleep', k)))
+    add('strobe_inpt', lambda: Raw('strobe', V('INPT4'))); add('st_inpt', lambda: Raw('store', Deref('INPT4')));
     add('asm_nop', lambda: Raw('asm', 'NOP', 1)); add('asm_wsync', lambda: Raw('asm', 'STA WSYNC', 2)); add('asm_lda', lambda: Raw('asm', 'LDA INPT4', 2))
     return P
 
